@@ -226,6 +226,32 @@ class Opts:
         self.plus_commutes = plus_commutes
 
 
+def _collect_like(items, opts):
+    """x + x -> 2*x ; k1*x + k2*x -> (k1+k2)*x   (numeric, commutative sums only)"""
+    coef = {}
+    order = []
+    for x in items:
+        k, base = 1, x
+        if x[0] == '*' and len(x[1]) == 2 and is_int(x[1][0]) != is_int(x[1][1]):
+            c, base = (x[1][0], x[1][1]) if is_int(x[1][0]) else (x[1][1], x[1][0])
+            k = c[1]
+        if is_c(base):
+            k, base = 1, x
+        if base not in coef:
+            coef[base] = 0
+            order.append(base)
+        coef[base] += k
+    if len(order) == len(items):
+        return items
+    out = []
+    for base in order:
+        k = coef[base]
+        if k == 0 and not is_c(base):
+            continue
+        out.append(base if k == 1 else mk_bin('*', C(k), base, opts))
+    return out or [C(0)]
+
+
 def mk_bin(op, a, b, opts=None):
     # constant folding
     if is_c(a) and is_c(b):
@@ -271,6 +297,8 @@ def mk_bin(op, a, b, opts=None):
                 for x in consts[1:]:
                     acc = _safe_binop(op, acc, x[1])
                 items = [x for x in items if not (is_int(x) and type(x[1]) is int)] + [C(acc)]
+            if op == '+':
+                items = _collect_like(items, opts)
             if op in IDENT and len(items) > 1:
                 it2 = [x for x in items if not (is_int(x) and type(x[1]) is int and x[1] == IDENT[op])]
                 if it2 and (op != '*' or True):
